@@ -203,7 +203,7 @@ def m_x_Attribute(self, st, n, k):
             return k(st, VFunc('builtin', 'os.path.' + n.attr))
         if isinstance(base, VEnvObj):
             if base.cls == 'File' and n.attr == 'name':
-                return k(st, base.get(st))
+                return k(st, base.get(st).items[3])
             return k(st, VFunc('envmeth', base, n.attr))
         if isinstance(base, VRef) and base.cls == 'Module':
             # an attribute of a module object: a name of its namespace
@@ -735,22 +735,33 @@ def m_call_inline(self, st, c, pos, kws, kwstar, k):
     return self.exec_block(st, body, lambda st2: on_return(st2, VNone()))
 
 
-def m_tv_frag_insert(self, st, frag, position, string, k):
+def m_tv_frag_insert(self, st, frag, position, string, k, no_check=False):
     """Fragments.insert in translation-validation mode: the buffer is the sparse byte array of its
     contract (C11): raise iff a byte of the range is occupied, else store exactly those bytes."""
     pos, c1 = self.as_int(position)
     sb, c2 = self.as_bytes(string)
-    if z3.is_app(sb) and sb.decl().name() == 'bconcat' and is_false(z3.Or(c1, c2)):
-        # storing x ++ y at p is storing x at p and y at p + |x| (same final view, raises iff either does):
-        # keeps the buffer terms of vectorised and per-field code syntactically aligned
-        x, y = sb.children()
-
-        def blen_x(t):      # |x ++ y| = |x| + |y|, structurally (keeps positions syntactically aligned)
+    if z3.is_app(sb) and sb.decl().name() == 'bconcat' and is_false(z3.Or(c1, c2)) and not no_check:
+        # storing x ++ y at p is storing x at p and y at p + |x|: keeps the buffer terms of vectorised and per-field code
+        # syntactically aligned.  The insert is ATOMIC: it raises iff a byte of the WHOLE range is occupied, before
+        # anything is stored or the cursor moves (the handlers report the cursor).
+        def parts_of(t):
             if z3.is_app(t) and t.decl().name() == 'bconcat':
-                return blen_x(t.children()[0]) + blen_x(t.children()[1])
-            return T.blen(t)
-        return self.tv_frag_insert(st, frag, VInt(pos), VBytes(x),
-                                   lambda st, _: self.tv_frag_insert(st, frag, VInt(pos + blen_x(x)), VBytes(y), k))
+                return parts_of(t.children()[0]) + parts_of(t.children()[1])
+            return [t]
+        parts = parts_of(sb)
+        total = sum([T.blen(t) for t in parts[1:]], T.blen(parts[0]))
+        occ0 = z3.Select(st.heap['Fragments.occ'], frag.z)
+        p0 = z3.Int('p!fi')
+        collide_all = z3.Exists([p0], z3.And(pos <= p0, p0 < pos + total, z3.Select(occ0, p0)))
+
+        def store_all(st):
+            def go(st, i, at):
+                if i == len(parts):
+                    return k(st, VNone())
+                return self.tv_frag_insert(st, frag, VInt(at), VBytes(parts[i]), lambda st, _: go(st, i + 1, at + T.blen(parts[i])), no_check=True)
+            return go(st, 0, pos)
+        self.used_assumptions.add('Fragments behaves as the sparse byte array of its contract (C11)')
+        return self.with_raises(st, [(collide_all, 'Exception')], store_all)
     L = T.blen(sb)
     occ = z3.Select(st.heap['Fragments.occ'], frag.z)
     byt = z3.Select(st.heap['Fragments.byt'], frag.z)
@@ -767,6 +778,8 @@ def m_tv_frag_insert(self, st, frag, position, string, k):
         st.heap['Fragments.current_offset'] = z3.Store(st.heap['Fragments.current_offset'], frag.z, pos + L)
         st.heap['Fragments.extent'] = z3.Store(st.heap['Fragments.extent'], frag.z, z3.If(pos + L > ext, pos + L, ext))
         return k(st, VNone())
+    if no_check:
+        return cont(st)
     return self.with_raises(st, [(z3.Or(c1, c2), 'TypeError'), (collide, 'Exception')], cont)
 
 
@@ -2403,8 +2416,8 @@ def m_s_Global(self, st, s, k):
 
 
 def m_s_With(self, st, s, k):
-    """with <expr> as <name>: body  - for the environment's file objects (closing has no modelled effect;
-    an exception in the body propagates)"""
+    """with <expr> as <name>: body  - for the environment's file objects: every way out of the body closes the file
+    (what was written reaches the disk) first, in the outer context; an exception in the body then propagates"""
     if len(s.items) != 1:
         raise Untranslated('with statement with several items')
     item = s.items[0]
@@ -2416,7 +2429,23 @@ def m_s_With(self, st, s, k):
             if not isinstance(item.optional_vars, ast.Name):
                 raise Untranslated('with ... as <pattern>')
             st.loc[item.optional_vars.id] = v
-        return self.exec_block(st, s.body, k)
+        outer0 = st.ctx
+
+        def then(cont):
+            def w(st2, *a):
+                st2.ctx = outer0
+                self.env_file_close(st2, v)
+                return cont(st2, *a)
+            return w
+        st.ctx = Ctx(then(outer0.on_return), then(outer0.on_raise),
+                     then(outer0.on_break) if outer0.on_break else None,
+                     then(outer0.on_continue) if outer0.on_continue else None)
+
+        def normal(st2):
+            st2.ctx = outer0
+            self.env_file_close(st2, v)
+            return k(st2)
+        return self.exec_block(st, s.body, normal)
     return self.ev(st, item.context_expr, got)
 
 
